@@ -202,7 +202,10 @@ int __real_poll(struct pollfd *, nfds_t, int);
 static void scn_spin(struct loopthr *lt, struct vt_wait *w)
 {
 	int i, n = 0;
-	(void)w;
+	/* C07: "every wake-up makes progress instead of polling repeatedly without dispatching anything" */
+	mon_viol("C07", "spin-without-dispatch", g_method,
+		 "loop %d went through 3000 consecutive poll rounds that reported ready descriptors (last: %d) without the library making a single call-back",
+		 lt->idx, w->ret);
 	for (i = 0; i < MAXRAW; i++) {
 		struct pollfd p;
 		if (atomic_load(&rw[i].state) != 1 || rw[i].owner != lt->idx || !(rw[i].last_post_seq > rw[i].last_entry_seq))
